@@ -57,3 +57,18 @@ def c03_use_schema_without_database():
     except Exception as e:  # noqa: BLE001
         errno = getattr(e, "errno", None)
         return errno != 90105, f"use schema s1 without a current database raised {type(e).__name__} errno={errno} sqlstate={getattr(e, 'sqlstate', None)} (Snowflake: 90105/22000)"
+
+
+def c06_unmapped_result_types():
+    from vf.real import real_cursor
+
+    fs, conn, cur = real_cursor(False)
+    cur.execute("create table t (a int, c timestamp)")
+    bad = []
+    for q in ("select c - c as d from t", "select uuid() as u", "select hash(a) as h from t", "select [1, 2] as l"):
+        cur.execute(q)
+        try:
+            cur.description
+        except NotImplementedError as e:
+            bad.append(f"{q!r}: {e}")
+    return bool(bad), "; ".join(bad) or "all described"
